@@ -71,7 +71,7 @@ pub fn all() -> Vec<Prop> {
             id: "C03",
             run: props::skip::run_c03,
             replayers: props::skip::replayers_c03,
-            rule: "proptest over every mutating entry point, each called on a view into a larger sentinel-filled parent (axis permutation, per-axis step 1..3, reversal, 0..2 guard elements in front/behind; 1-D routines on strided/offset/reversed views): partition_mut, get_from_sorted_mut, get_many_from_sorted_mut, quantile_mut, quantiles_mut, quantile_axis_mut, quantiles_axis_mut (11 Ord element types, 1-4-D, every axis), quantile_axis_skipnan_mut and map_axis_skipnan_mut with a recording closure (f32, f64, Option<i32>, Option<u8>, Option<i64>, Option<N64>, 1-3-D, every axis), remove_nan_mut directly and over lanes_mut of n-D arrays (all 14 impls), under scripted pivots. Oracle: every parent element outside the view is bit-identical to the sentinel afterwards, and every lane along the routine's axis holds the same multiset of bit patterns (missing values and NaN payloads included). Distinct by hash of the whole case. Non-trivial: the view is a strict subset of its parent and the data are not constant.",
+            rule: "proptest over every mutating entry point, each called on a view into a larger sentinel-filled parent (axis permutation, per-axis step 1..3, reversal, 0..2 guard elements in front/behind; 1-D routines on strided/offset/reversed views): partition_mut, get_from_sorted_mut, get_many_from_sorted_mut, quantile_mut, quantiles_mut, quantile_axis_mut, quantiles_axis_mut (11 Ord element types, 1-4-D, every axis), quantile_axis_skipnan_mut and map_axis_skipnan_mut with a recording closure (f32, f64, Option<i32>, Option<u8>, Option<i64>, Option<N64>, 1-3-D, every axis), remove_nan_mut directly and over lanes_mut of n-D arrays (all 14 impls), under scripted pivots. A further checker calls partition_mut, get_from_sorted_mut, get_many_from_sorted_mut, quantile_mut and quantile_axis_mut on one ArcArray handle of a shared buffer and on a CowArray borrowing another array: the other handle / the borrowed source must stay bit-identical. Oracle: every parent element outside the view is bit-identical to the sentinel afterwards, and every lane along the routine's axis holds the same multiset of bit patterns (missing values and NaN payloads included). Distinct by hash of the whole case. Non-trivial: the view is a strict subset of its parent and the data are not constant.",
             assumptions: COMMON_ASSUMPTIONS,
             profiles_quick: BOTH,
             profiles_thorough: BOTH,
@@ -93,7 +93,7 @@ pub fn all() -> Vec<Prop> {
             id: "C05",
             run: props::minmax::run_c05,
             replayers: props::minmax::replayers,
-            rule: "proptest: element type (i32, u8, i64, f32, f64) x 0-4-D shape incl. zero-length axes and 0-D x layout (view into a sentinel parent: permuted/stepped/reversed/padded) x ownership (view, owned C, owned F, ArcArray, CowArray borrowed/owned) x static/dynamic dimension x values (ties, signed zeros, infinities, one NaN at first/middle/last position, several NaNs). Oracle: independent scan of the logical data: Ok(idx) => a[idx] <= (>=) every element, *min() == a[argmin()] under IEEE ==, EmptyInput <=> no elements, UndefinedOrder <=> a NaN is present (non-empty). The returned index is not required to be the first extremum. Distinct by hash. Non-trivial: >= 2 elements and (a tie for the extremum, a NaN, or a non-standard layout/ownership).",
+            rule: "proptest: element type (i32, u8, i64, f32, f64) x 0-4-D shape incl. zero-length axes and 0-D x layout (view into a sentinel parent: permuted/stepped/reversed/padded) x ownership (view, owned C, owned F, ArcArray, CowArray borrowed/owned) x static/dynamic dimension x values (ties, signed zeros, infinities, one NaN at first/middle/last position, several NaNs). One case in ten (1-3-D) has more than 1000 elements. Oracle: independent scan of the logical data: Ok(idx) => a[idx] <= (>=) every element, *min() == a[argmin()] under IEEE ==, EmptyInput <=> no elements, UndefinedOrder <=> a NaN is present (non-empty). The returned index is not required to be the first extremum. Distinct by hash. Non-trivial: >= 2 elements and (a tie for the extremum, a NaN, or a non-standard layout/ownership).",
             assumptions: COMMON_ASSUMPTIONS,
             profiles_quick: BOTH,
             profiles_thorough: BOTH,
@@ -203,7 +203,7 @@ pub fn all() -> Vec<Prop> {
             id: "C15",
             run: props::sel::run_c15,
             replayers: props::sel::replayers,
-            rule: "Enumeration: every weak-order pattern of length 1..8 (quick) / 1..9 (thorough) x every pivot position x view strides {1,2,3,-1,-2} inside a sentinel buffer (distinct by construction). Random: proptest arrays up to 60/500 elements, distinct by hash. Non-trivial: length >= 2; the length-1 in-range calls (where the unrepaired code panicked) are counted separately in classes.",
+            rule: "Enumeration: every weak-order pattern of length 1..8 (quick) / 1..9 (thorough) x every pivot position x view strides {1,2,3,-1,-2} inside a sentinel buffer (distinct by construction). Random: proptest arrays up to 60/500 elements plus lengths at which blocked implementations change regime (31..33, 63..65, 127..129, ..., 512), element types i64, i128, BigInt and i16 (a routine may dispatch on the element size), distinct by hash. Non-trivial: length >= 2; the length-1 in-range calls (where the unrepaired code panicked) are counted separately in classes.",
             assumptions: COMMON_ASSUMPTIONS,
             profiles_quick: BOTH,
             profiles_thorough: BOTH,
